@@ -12,7 +12,8 @@ func init() {
 	register(&PropertySpec{
 		ID: "C18",
 		Explanation: "Structural necessary conditions of 'compression is transparent and only used as negotiated': R1 exactly the STARTUP and OPTIONS builders clear the compression bit of the header flags, every other builder passes the framer's flags; R2 finish() compresses iff the compression bit of the flags byte actually written is set, compresses exactly the bytes after the header, replaces them, and patches the length afterwards; " +
-			"R3 a framer gets the compression flag iff it has a compressor; readFrame decompresses iff the header flag is set, returns an error when no compressor is configured (nil check dominates Decode) and propagates Decode's error; R4 negotiation: COMPRESSION is put into STARTUP only for an algorithm the server advertised under the configured compressor's name, and on every path where it was not, the connection's compressor is cleared before STARTUP is sent; R5 lz4: Encode writes the big-endian uncompressed length at offset 0 and the block after it, Decode checks for the 4-byte prefix, reads the same field and decompresses the rest.",
+			"R3 a framer gets the compression flag iff it has a compressor; readFrame decompresses iff the header flag is set, returns an error when no compressor is configured (nil check dominates Decode) and propagates Decode's error; R4 negotiation: COMPRESSION is put into STARTUP only for an algorithm the server advertised under the configured compressor's name, and on every path where it was not, the connection's compressor is cleared before STARTUP is sent; R5 lz4: Encode writes the big-endian uncompressed length at offset 0 and the block after it, Decode checks for the 4-byte prefix, reads the same field and decompresses the rest." +
+			" R7 the length patched into the header is computed from the buffer after its last replacement.",
 		NotDecided: "byte identity of decode(encode(x)) for all bodies (behaviour of the snappy / lz4 libraries); size limits of the libraries.",
 		Rules: []*Rule{
 			{ID: "C18.R1", Floor: 8, Doc: "only STARTUP and OPTIONS clear flagCompress in the header flags", Run: c18r1},
